@@ -1,9 +1,11 @@
 package main
 
 import (
+	"encoding/json"
 	"flag"
 	"fmt"
 	"os"
+	"os/exec"
 	"sort"
 	"strings"
 	"time"
@@ -21,6 +23,8 @@ func main() {
 		cmdCheck(os.Args[2:])
 	case "selftest":
 		cmdSelftest(os.Args[2:])
+	case "replay":
+		cmdReplay(os.Args[2:])
 	default:
 		fmt.Fprintln(os.Stderr, "unknown command", os.Args[1])
 		os.Exit(2)
@@ -136,4 +140,38 @@ func cmdVerify(args []string) {
 	}
 	fmt.Printf("obligations %d failed %d; solver queries %d (cached %d) solver time %.1fs; wall %.1fs\n", total, failed, statQueries, statCached, statSolverS, time.Since(t0).Seconds())
 	os.RemoveAll(scratch())
+}
+
+// cmdReplay prints a violation record and re-runs its replay test, if it has one.
+func cmdReplay(args []string) {
+	if len(args) < 1 {
+		fmt.Println("usage: govc replay <violation.json>")
+		os.Exit(2)
+	}
+	b, err := os.ReadFile(args[0])
+	if err != nil {
+		fmt.Println(err)
+		os.Exit(2)
+	}
+	var rec map[string]interface{}
+	if err := json.Unmarshal(b, &rec); err != nil {
+		fmt.Println(err)
+		os.Exit(2)
+	}
+	fmt.Printf("property:   %v\nobligation: %v\nposition:   %v\nclause:     %v\nreason:     %v\nanswers:    %v\n", rec["property"], rec["obligation"], rec["position"], rec["clause"], rec["reason"], rec["solver_answers"])
+	rp, ok := rec["replay"].(map[string]interface{})
+	if !ok || rp["command"] == nil {
+		fmt.Println("no replay test recorded for this violation (no-failing-input-found); SMT query:", rec["smt_query"])
+		os.Exit(1)
+	}
+	fmt.Println("inputs:    ", rp["inputs"])
+	fmt.Println("running:   ", rp["command"])
+	cmd := exec.Command("sh", "-c", rp["command"].(string))
+	cmd.Env = append(os.Environ(), "GOFLAGS=-mod=mod", "GOPROXY=off", "GOSUMDB=off", "GOTOOLCHAIN=local")
+	out, _ := cmd.CombinedOutput()
+	fmt.Print(string(out))
+	if strings.Contains(string(out), "REPLAY-CONFIRMED") {
+		os.Exit(1)
+	}
+	fmt.Println("the recorded inputs no longer reproduce the failure")
 }
